@@ -197,6 +197,11 @@ def writersAfterOp (before w : World) : World :=
       { w with wr := w.wr.map fun (c, s) => if c = ci then (c, sig) else (c, s) }
     else w) w
 
+/-- a freshly configured world is `Initial` (decidable form; sound by `Rsp.Props.C17.initialOk_sound`) -/
+def initialOk (w : World) : Bool :=
+  w.heap.isEmpty && w.clients.isEmpty && w.udpPending.isNone &&
+  w.servers.all fun s => s.slots == List.replicate 256 {} && s.nextid == 0
+
 /-- execute one world op; returns new state and the output line -/
 structure DState where
   w : World
@@ -209,13 +214,13 @@ def worldOp1 (st : Option World) (op : String) (args tr : List String) : Option 
     match toks.foldlM parseCfgTok ({} : CfgAcc) with
     | none => (none, "bad-op")
     | some a =>
-      let w : World := { H := realHashes, rx := oracleOf t, opts := a.opts, cliConfs := a.clis,
-                         servers := a.srvs.map fun (_, c, ss) => { conf := c, ss := ss },
-                         realms := a.realms, rnds := t.rnds }
-      -- every clientwr thread runs to its first timed wait
-      let w := (List.range w.servers.length).foldl (fun w i => (writerWaitBound w i).1) w
+      let wz : World := { H := realHashes, rx := oracleOf t, opts := a.opts, cliConfs := a.clis,
+                          servers := a.srvs.map fun (_, c, ss) => { conf := c, ss := ss },
+                          realms := a.realms, rnds := t.rnds }
+      -- every clientwr thread runs to its first timed wait (history ops `waitbound`)
+      let w := (List.range wz.servers.length).foldl (fun w i => World.step w (.waitbound i)) wz
       let (w, s) := tail w
-      (some w, "ok" ++ s)
+      (some w, "ok" ++ s ++ (if initialOk wz then "" else " MODEL-INITIAL-STATE-NOT-Initial"))
   | "client", [name], some w =>
     match cliIdx w name with
     | some ci => (some { w with clients := w.clients ++ [{ conf := ci }] }, s!"c{w.clients.length}")
@@ -356,6 +361,33 @@ def dnsModel (args tr : List String) : String :=
     | _, _ => "bad-op"
   | _ => "bad-op"
 
+/-- the history operations (`World.Op`) an op line stands for — the ops the whole-history theorem
+    `Rsp.Props.C17.history_good` quantifies over; none for ops outside it (UDP listener, writer-thread layer) -/
+def opsOf (w : World) (op : String) (args tr : List String) : Option (List World.Op) :=
+  let t := parseTranscript tr
+  let orc : World.Op := .oracle (oracleOf t) t.rnds
+  match op, args with
+  | "client", [name] => (cliIdx w name).map fun ci => [.client ci]
+  | "rq", [k, pkt] => (match k.toNat?, ofHex pkt with | some k, some pkt => some [orc, .rq k pkt] | _, _ => none)
+  | "reply", [name, pkt] => (match srvIdxW w name, ofHex pkt with | some si, some pkt => some [orc, .reply si pkt] | _, _ => none)
+  | "writer", [name] => (srvIdxW w name).map fun si => [orc, .writer si]
+  | "tick", [n] => n.toNat?.map fun n => [.tick n]
+  | "reset", [name] => (srvIdxW w name).map fun si => [.reset si]
+  | "srvstate", [name, stt, lost] =>
+    (match srvIdxW w name, stt.toNat?, lost.toNat? with | some si, some a, some b => some [.srvstate si a b] | _, _, _ => none)
+  | "pop", [k] => k.toNat?.map fun k => [.pop k]
+  | "rmclient", [k] => k.toNat?.map fun k => [.rmclient k]
+  | "radput", [b] => some [.radput (b = "1")]
+  | _, _ => none
+
+/-- every op line is also executed through `World.step`, the function the whole-history theorem is about; the two ways
+    of computing the next state must agree, otherwise the line is marked and cannot equal the implementation's -/
+def stepAgrees (before : World) (after : Option World) (op : String) (args tr : List String) : Bool :=
+  if !before.wr.isEmpty then true else
+  match opsOf before op args tr, after with
+  | some ops, some w' => digest (ops.foldl World.step before) == digest w'
+  | _, _ => true
+
 /-- world ops plus the ops that need the named rewrite blocks of the configuration -/
 def worldOp (st : Option DState) (op : String) (args tr : List String) : Option DState × String :=
   match op, args, st with
@@ -381,6 +413,7 @@ def worldOp (st : Option DState) (op : String) (args tr : List String) : Option 
   | "fault", _, st => (st, "fault")         -- the outcome under an allocation failure is judged by the monitor, not predicted
   | _, _, some d =>
     let (w, out) := worldOp1 (some d.w) op args tr
+    let out := if stepAgrees d.w w op args tr then out else out ++ " MODEL-STEP-DISAGREES-WITH-World.step"
     ((w.map fun w => { d with w := w }), out)
   | _, _, none => (none, "bad-op")
 
